@@ -198,17 +198,28 @@ def gen_layout(rng, w, flavour):
             w['files'][rel + '/' + fn] = {
                 'rules': gen_mapping(rng, w),
                 'style': style_for(rng, fn)}
+            if rng.random() < 0.15:
+                # a symbolic link to a regular file kept in a hidden
+                # sub-directory (the Kubernetes ConfigMap layout)
+                w['files'][rel + '/' + fn]['symlink'] = True
+        if (rel + '/' + SUBDIR) in w['mkdirs'] and rng.random() < 0.4:
+            # a symlink to a DIRECTORY must be ignored like a directory
+            w.setdefault('dirlinks', {})[rel + '/linkdir.yaml'] = \
+                rel + '/' + SUBDIR
     if flavour == 'c09':
         present = [m for m in MAIN_CANDIDATES if rng.random() < 0.5]
     else:
         present = [main_name(w)] if rng.random() < 0.65 else []
     for m in present:
         mp = gen_mapping(rng, w, kmax=4)
+        symlinked = rng.random() < 0.1
         if flavour == 'c09':
             # every candidate carries a rule that names it, so the decision
             # reveals which file was read
             mp['which:' + m] = ['true']
         w['files']['etc/' + m] = {'rules': mp, 'style': style_for(rng, m)}
+        if symlinked:
+            w['files']['etc/' + m]['symlink'] = True
     if flavour == 'c09':
         w['probe_names'] = w['probe_names'] + \
             ['which:' + m for m in MAIN_CANDIDATES]
@@ -489,8 +500,19 @@ class DiskSim:
             self.dirs.add(rel)
         for rel in sorted(world['files']):
             f = world['files'][rel]
-            self.fs.write(self.abs(rel), rast.render(f['rules'], f['style']))
+            text = rast.render(f['rules'], f['style'])
+            if f.get('symlink'):
+                target = posixpath.dirname(rel) + '/.store/' + \
+                    posixpath.basename(rel)
+                self.fs.write(self.abs(target), text)
+                self.fs.symlink(self.abs(rel), self.abs(target))
+                self.hit('fault:file_is_symlink')
+            else:
+                self.fs.write(self.abs(rel), text)
             self.content[rel] = f['rules']
+        for rel, target in sorted(world.get('dirlinks', {}).items()):
+            self.fs.symlink(self.abs(rel), self.abs(target))
+            self.hit('fault:symlink_to_directory_decoy')
         pf = world['conf']['pf']
         self._conf_text = None
         lines = []
